@@ -121,6 +121,8 @@ InitStore ==
      slots  |-> <<>>,
      gprops |-> PD!Null,
      news   |-> <<>>,
+     fprec  |-> 7,          \* documented defaults of set_fprecision /
+     dprec  |-> 6,          \* set_dprecision
      left   |-> {}]
 
 Live(P, h)  == h \in DOMAIN P /\ ~P[h].deleted
@@ -516,7 +518,19 @@ DoProp(st, op) ==
 
 (* set_fprecision / set_dprecision: only vnacal_save observes the value    *)
 DoSetPrecision(st, op) ==
-    IF op.p >= 1 THEN Ok(st, 0) ELSE Fail(st, {"EINVAL"})
+    IF op.p < 1 THEN Fail(st, {"EINVAL"})
+    ELSE IF op.which = "f" THEN Ok([st EXCEPT !.fprec = op.p], 0)
+    ELSE Ok([st EXCEPT !.dprec = op.p], 0)
+
+(* vnacal_save writes the calibrations, their properties and the global    *)
+(* properties; the container itself is unchanged.  What vnacal_load makes  *)
+(* of the file is stated in the trace specification (LoadedStore): the     *)
+(* same named calibrations with the same type, dimensions, frequencies,    *)
+(* z0 (as far as the data precision in force represents it) and property   *)
+(* documents, the same global document, a fresh parameter table, no        *)
+(* vnacal_new_t; the manual does not say which indices the loaded          *)
+(* calibrations get.                                                       *)
+DoSave(st, op) == Ok(st, 0)
 
 -----------------------------------------------------------------------------
 (* vnacal_free: frees every vnacal_new_t, then the properties, then tears  *)
@@ -543,7 +557,7 @@ FreeNews(P, news, N) ==
 
 DeadStore(left) ==
     [alive |-> FALSE, params |-> <<>>, slots |-> <<>>, gprops |-> PD!Null,
-     news |-> <<>>, left |-> left]
+     news |-> <<>>, fprec |-> 0, dprec |-> 0, left |-> left]
 
 DoFree(st, op) ==
     LET P1 == FreeNews(st.params, st.news, DOMAIN st.news)
@@ -578,6 +592,7 @@ Do(st, op) ==
       [] op.op = "Get"                -> DoGet(st, op)
       [] op.op = "Prop"               -> DoProp(st, op)
       [] op.op = "SetPrecision"       -> DoSetPrecision(st, op)
+      [] op.op = "Save"               -> DoSave(st, op)
       [] op.op = "Free"               -> DoFree(st, op)
 
 (* derived reference count: table reference (unless deleted) + news        *)
